@@ -23,6 +23,10 @@ pub struct Case {
     pub cfg: FileCfg,
     pub t0: VInst,
     pub runs: Vec<RunSpec>,
+    /// > 0: a real-time case (C09): no virtual clock, real file metadata; records are logged in a
+    /// tight loop for this many milliseconds with Age::Second
+    #[serde(default)]
+    pub realtime_ms: u32,
 }
 
 pub struct PartResult {
